@@ -8,7 +8,8 @@ use std::collections::{BTreeMap, BTreeSet, VecDeque};
 pub enum Op {
     Adv(i64),
     Tick,
-    Answer,
+    /// the client ends the timed act with complete / submit / skip
+    Answer(&'static str),
 }
 
 #[derive(Clone, Debug)]
@@ -58,6 +59,18 @@ pub fn models() -> Vec<Model> {
             });
         }
     }
+    // a timed step around a timed act: the same rule text on both, and different texts
+    for (rs, ra) in [("1s", "1s"), ("1s", "2s"), ("2s", "1s")] {
+        let yml = format!(
+            "id: m19\nsteps:\n  - id: s1\n    timeout:\n      - on: {rs}\n        steps:\n          - id: ts{rs}\n            acts:\n              - uses: acts.core.msg\n                key: fired-step-{rs}\n    acts:\n      - uses: acts.core.irq\n        key: a1\n        timeout:\n          - on: {ra}\n            steps:\n              - id: ta{ra}\n                acts:\n                  - uses: acts.core.msg\n                    key: fired-act-{ra}\n  - id: s2\n    acts:\n      - uses: acts.core.irq\n        key: a2\n"
+        );
+        v.push(Model {
+            id: format!("both/step-{rs}+act-{ra}"),
+            yml,
+            rules: vec![(format!("step:{rs}"), rule_ms(rs), format!("ts{rs}")), (format!("act:{ra}"), rule_ms(ra), format!("ta{ra}"))],
+            timed_is_step: false,
+        });
+    }
     v
 }
 
@@ -66,6 +79,9 @@ struct Ref {
     elapsed: i64,
     fired: BTreeSet<usize>,
     open: bool,
+    /// how the timed act was closed: part of the state, the implementation may treat the
+    /// terminal states differently
+    closed_by: &'static str,
 }
 
 const ADV: [i64; 4] = [300, 800, 1_100, 61_000];
@@ -89,9 +105,9 @@ fn apply(im: &mut Impl, op: &Op) {
     match op {
         Op::Adv(ms) => im.sess.w.advance_ms(*ms),
         Op::Tick => im.sess.tick(),
-        Op::Answer => {
+        Op::Answer(kind) => {
             let a1 = im.a1.clone();
-            let _ = im.sess.act("complete", "p1", &a1, &acts::Vars::new());
+            let _ = im.sess.act(kind, "p1", &a1, &acts::Vars::new());
         }
     }
     im.sess.drain();
@@ -129,6 +145,7 @@ fn explore(m: &Model, depth: usize, out: &mut ItemOut) {
         elapsed: 0,
         fired: BTreeSet::new(),
         open: true,
+        closed_by: "",
     };
     let mut seen: BTreeSet<Ref> = BTreeSet::new();
     seen.insert(init.clone());
@@ -147,7 +164,9 @@ fn explore(m: &Model, depth: usize, out: &mut ItemOut) {
             }
         }
         if s.open {
-            ops.push(Op::Answer);
+            for k in ["complete", "submit", "skip"] {
+                ops.push(Op::Answer(k));
+            }
         }
         for op in ops {
             let mut im = new_impl(m);
@@ -155,6 +174,7 @@ fn explore(m: &Model, depth: usize, out: &mut ItemOut) {
                 elapsed: 0,
                 fired: BTreeSet::new(),
                 open: true,
+                closed_by: "",
             };
             let mut full = path.clone();
             full.push(op.clone());
@@ -168,7 +188,10 @@ fn explore(m: &Model, depth: usize, out: &mut ItemOut) {
                 let mut nxt = cur.clone();
                 match o {
                     Op::Adv(ms) => nxt.elapsed += ms,
-                    Op::Answer => nxt.open = false,
+                    Op::Answer(k) => {
+                        nxt.open = false;
+                        nxt.closed_by = k;
+                    }
                     Op::Tick => {
                         if cur.open {
                             for (i, (_, limit, _)) in m.rules.iter().enumerate() {
@@ -214,10 +237,10 @@ fn explore(m: &Model, depth: usize, out: &mut ItemOut) {
                         }
                     }
                     // firing does not close the timed task
-                    if cur.open && !matches!(o, Op::Answer) && crate::amode::is_terminal_state(&state) {
+                    if cur.open && !matches!(o, Op::Answer(_)) && crate::amode::is_terminal_state(&state) {
                         viols.entry("closed-by-timeout".into()).or_insert((format!("after {full:?}: the timed task is {state} although it was not answered"), full.clone()));
                     }
-                    if cur.open && !matches!(o, Op::Answer) && state == "gone" {
+                    if cur.open && !matches!(o, Op::Answer(_)) && state == "gone" {
                         viols.entry("timed-task-gone".into()).or_insert((format!("after {full:?}: the timed task vanished"), full.clone()));
                     }
                 }
@@ -241,7 +264,7 @@ fn explore(m: &Model, depth: usize, out: &mut ItemOut) {
         out.add_state(&scen, &format!("{s:?}"));
     }
     if out.samples.is_empty() {
-        out.samples.push(json!({"scenario": scen, "model": m.yml, "alphabet": ["Adv(300)", "Adv(800)", "Adv(1100)", "Adv(61000)", "Tick", "Answer"],
+        out.samples.push(json!({"scenario": scen, "model": m.yml, "alphabet": ["Adv(300)", "Adv(800)", "Adv(1100)", "Adv(61000)", "Tick", "Answer(complete)", "Answer(submit)", "Answer(skip)"],
             "example_path": "[Adv(800), Tick, Adv(300), Tick] -> rule 1s starts its step at the second tick only", "reference_states": seen.len()}));
     }
     for (sig, (what, path)) in viols {
@@ -263,7 +286,7 @@ impl Check for C19 {
         CheckInfo {
             id: "C19",
             level: "model_checking",
-            rule: "a timed interrupt act, or a timed step around it, with every rule set from {1s}, {2s}, {1m}, {1s,2s}, {2s,1s}, {1s,1m}, {1s,2s,1m}; reference state = (elapsed ms, rules fired, task open); breadth-first over every state reachable within the depth with the alphabet {advance 300 | 800 | 1100 | 61000 ms, tick, answer}; every edge replayed on a fresh real engine under a virtual clock; the instances of each rule's step created by the edge must equal the prediction (fires at the first tick with elapsed >= limit while open, once, never after the task ended, never without a tick) and the timed task must stay open".into(),
+            rule: "a timed interrupt act, a timed step around it, or both (same and different rule texts), with every rule set from {1s}, {2s}, {1m}, {1s,2s}, {2s,1s}, {1s,1m}, {1s,2s,1m}; reference state = (elapsed ms, rules fired, task open); breadth-first over every state reachable within the depth with the alphabet {advance 300 | 800 | 1100 | 61000 ms, tick, answer with complete | submit | skip}; every edge replayed on a fresh real engine under a virtual clock; the instances of each rule's step created by the edge must equal the prediction (fires at the first tick with elapsed >= limit while open, once, never after the task ended, never without a tick) and the timed task must stay open".into(),
             assumptions: vec![
                 "virtual clock (hook); ticks are the explicit operation the timer issues; an elapsed time within 2 ms of a limit is not judged".into(),
             ],
